@@ -141,13 +141,13 @@ func c10rRun(scn c10rScn) (res c10rRes) {
 	var pair *vhPair
 	if scn.Via == "raw" {
 		srv = peers.StartRS(h, sopts...)
-		if v, err := srv.Handshake(); err != nil || v.Typ != wire.Version {
+		if v, err := hHandshake(srv, cliCase.Load()); err != nil || v.Typ != wire.Version {
 			res.Tie = fmt.Sprint("handshake with the request server failed: ", err)
 			return
 		}
 		defer func() {
 			srv.CloseInput()
-			if _, ok := srv.Wait(10 * time.Second); !ok {
+			if _, ok := hCleanupSrv(srv, "c10ret/server-exit", 10*time.Second); !ok {
 				res.Hist["shutdown-not-finished-in-10s"]++
 			}
 		}()
@@ -296,7 +296,7 @@ func c10rDoRaw(srv *peers.Srv, id uint32, st c10rStep, slot *c10rSlot) (c10rOut,
 	default:
 		return c10rOut{Kind: "problem", Problem: "harness: op " + st.Op + " has no raw form"}, false
 	}
-	rep, err := srv.Call(f)
+	rep, err := hCall(srv, cliCase.Load(), f)
 	if err != nil {
 		if err == peers.ErrTimeout {
 			return c10rOut{}, true
